@@ -1,5 +1,5 @@
 (* One dispatcher for every view-based stream: build the view from its dump, then answer queries. *)
-From PG Require Import Lib.Io Model.View Model.Traversal Model.AlgoBasic Model.ShortestM Model.MstM Model.CondenseM Model.MatchM Model.FlowM Model.CutM Model.TravExtra Model.MiscM Model.PageRankM Model.DsaturM Model.FasM Model.SteinerM.
+From PG Require Import Lib.Io Model.View Model.Traversal Model.AlgoBasic Model.ShortestM Model.MstM Model.CondenseM Model.MatchM Model.FlowM Model.CutM Model.TravExtra Model.MiscM Model.PageRankM Model.DsaturM Model.FasM Model.SteinerM Model.CliqueM.
 
 Definition answer (debug : bool) (v : view) (o : line) : list line :=
   let code := fst o in
@@ -16,6 +16,7 @@ Definition answer (debug : bool) (v : view) (o : line) : list line :=
   else if Nat.eqb code 52 then flow_query v o
   else if Nat.ltb code 55 then cut_query debug v o
   else if Nat.ltb code 60 then [(2, [])]
+  else if Nat.eqb code 60 then cliques_query v
   else if Nat.eqb code 61 then dsatur_query v o
   else if Nat.eqb code 62 then fas_query v o
   else if Nat.eqb code 65 then steiner_query v o
